@@ -44,6 +44,22 @@ pub fn tokens_to_line(tokens: &Tokens) -> String {
 /// vec!["echo foo", "&&", "echo bar", ";", "echo end"]
 /// >>> line_to_cmds("man awk | grep version");
 /// vec!["man awk | grep version"]
+/// Like `str::trim()`, but a trailing whitespace character that is escaped
+/// with a backslash (e.g. `ls foo\ `) belongs to the command and is kept.
+fn trim_cmd(token: &str) -> &str {
+    let t = token.trim_start();
+    let trimmed = t.trim_end();
+    if trimmed.len() < t.len() {
+        let n_bs = trimmed.chars().rev().take_while(|c| *c == '\\').count();
+        if n_bs % 2 == 1 {
+            if let Some(c) = t[trimmed.len()..].chars().next() {
+                return &t[..trimmed.len() + c.len_utf8()];
+            }
+        }
+    }
+    trimmed
+}
+
 pub fn line_to_cmds(line: &str) -> Vec<String> {
     // Special characters: http://tldp.org/LDP/abs/html/special-chars.html
     let mut result = Vec::new();
@@ -113,7 +129,7 @@ pub fn line_to_cmds(line: &str) -> Vec<String> {
                 sep.push(c);
                 continue;
             } else if c.to_string() == sep {
-                let _token = token.trim().to_string();
+                let _token = trim_cmd(&token).to_string();
                 if !_token.is_empty() {
                     result.push(_token);
                 }
@@ -128,7 +144,7 @@ pub fn line_to_cmds(line: &str) -> Vec<String> {
         }
         if c == ';' {
             if sep.is_empty() {
-                let _token = token.trim().to_string();
+                let _token = trim_cmd(&token).to_string();
                 if !_token.is_empty() {
                     result.push(_token);
                 }
@@ -143,7 +159,7 @@ pub fn line_to_cmds(line: &str) -> Vec<String> {
         token.push(c);
     }
     if !token.is_empty() {
-        result.push(token.trim().to_string());
+        result.push(trim_cmd(&token).to_string());
     }
     result
 }
